@@ -97,7 +97,9 @@ pub fn model_edit(doc: &Doc, tree: &RTree, selected: &[usize], frag: &[Node]) ->
     let mut done: Vec<usize> = vec![];
     for &n in selected {
         let nd = &tree.nodes[n];
-        if done.iter().any(|&d| tree.is_ancestor(d, n)) { if matches!(nd.kind, RKind::Elem | RKind::Attr | RKind::Root) { continue; } else { return Err(EditErr::Unspecified); } }
+        // beneath a node that an earlier replacement of this run removed: an element's new content is invisible; an attribute would have
+        // to take the replacement as its value, which xe refuses for markup although the node is gone already - the property does not say
+        if done.iter().any(|&d| tree.is_ancestor(d, n)) { if nd.kind == RKind::Elem || nd.kind == RKind::Root || (nd.kind == RKind::Attr && frag_as_pieces(frag).is_some()) { continue; } else { return Err(EditErr::Unspecified); } }
         match nd.kind {
             RKind::Elem => { let e = elem_at_mut(&mut out, &ents, &nd.locator).ok_or_else(|| EditErr::Model(format!("cannot navigate to {}", nd.locator)))?; e.children = frag.to_vec(); model::normalize(e); done.push(n); }
             RKind::Attr => {
